@@ -38,7 +38,9 @@ RULE = (
     f"{''.join(ALPHABET)!r} and all token sequences (single-blank separated) of "
     "length <= K (quick 4, thorough 5; 6 for the default loader while the budget "
     "lasts) over the vocabulary " + " ".join(VOCAB) + ", plus 'a = ' followed by "
-    "every sequence of <= 5 (quick) / 7 (thorough) tokens over 1 ( ) { } , <m>; "
+    "every sequence of <= 5 (quick) / 7 (thorough) tokens over 1 ( ) { } , <m>; every "
+    "sequence of <= 4 (quick) / 5 (thorough) items over a vocabulary of '#' comments, "
+    "dash continuations and '#' characters that start no comment; "
     "random: token soup, "
     "st.text() over full Unicode, and character-level mutations of tests/data "
     "labels; each x 6 parser variants. Non-trivial = the lexer handed the parser "
@@ -125,8 +127,13 @@ def exhaustive_strings(acc, prefix, length):
 BRACKETS = ["1", "(", ")", "{", "}", ",", "<m>"]
 
 
+# '#' comments, dash continuations, and '#' characters that do not start a comment
+HASHDASH = ["a", "=", "1", " #c\n", '"p #q -\n r"', "x-\n", " # --\n", "16#F#", "-\n",
+            "/* #z -\n */", "<u#-\n>", "\n"]
+
+
 def exhaustive_tokens(acc, first, length, variants, vocab="VOCAB"):
-    vocab = VOCAB if vocab == "VOCAB" else BRACKETS
+    vocab = {"VOCAB": VOCAB, "BRACKETS": BRACKETS, "HASHDASH": HASHDASH}[vocab]
     for tail in itertools.product(vocab, repeat=length - len(first)):
         if acc.expired():
             acc.notes["budget_exhausted"] = 1
@@ -312,6 +319,13 @@ def shards(tier, seed):
             out.append(("exhaustive_tokens",
                         dict(first=["a", "=", b], length=length,
                              variants=list(PARSERS), vocab="BRACKETS")))
+    # comments and continuations: every sequence over the '#'/dash vocabulary
+    H = 4 if tier == "quick" else 5
+    for length in range(1, H + 1):
+        for v in HASHDASH:
+            out.append(("exhaustive_tokens",
+                        dict(first=[v], length=length, variants=list(PARSERS),
+                             vocab="HASHDASH")))
     out.append(("tokens_in_context", {}))
     n = 400 if tier == "quick" else 12000
     for j in range(16):
